@@ -184,7 +184,9 @@ impl Game {
 
         match maybe_chess_move {
             Some(result) => Ok(result.clone()),
-            None => return Err(GameError::InvalidMove),
+            // The book's suggestion is not playable here (e.g. the game did not
+            // start from the standard position): search for a move instead.
+            None => self.select_alpha_beta_best_move(),
         }
     }
 
